@@ -224,18 +224,21 @@ func chooseBases(c *core.Ctx, l *linter, nProto, nRandom, maxValues int) ([]Name
 	protos := protoBases()
 	if nProto < len(protos) {
 		// rotate by seed so that different seeds exercise different prototype fragments in the quick tier;
-		// the base with implicitly tagged combinators is always kept
-		var keep NamedBase
-		var rest []NamedBase
+		// the bases with implicitly tagged combinators and with sibling masks fed by constants are always kept
+		var keep, rest []NamedBase
 		for _, b := range protos {
-			if b.Name == "proto/implicitTags" {
-				keep = b
+			if b.Name == "proto/implicitTags" || b.Name == "proto/twoMasks" {
+				keep = append(keep, b)
 			} else {
 				rest = append(rest, b)
 			}
 		}
 		k := int(c.Seed) % len(rest)
-		protos = append(append(rest[k:], rest[:k]...)[:nProto-1], keep)
+		n := nProto - len(keep)
+		if n < 0 {
+			n = 0
+		}
+		protos = append(append(rest[k:], rest[:k]...)[:n], keep...)
 	}
 	var cands []NamedBase
 	tried, invalid, tooBig := 0, 0, 0
